@@ -361,6 +361,59 @@ static bool do_op(const std::vector<std::string> &op) {
   if (o == "noproj") { for (size_t i = 1; i < op.size(); i++) g_proj.erase(op[i]); return false; }
   if (o == "snapshot") { project(); return false; }
   if (o == "revevents") { g_rev_events = true; return false; }
+  // ---- host file manipulation for C17 / C02 (paths relative to the mudlib directory = the driver's cwd)
+  if (o == "hostcp" && op.size() > 2) {
+    std::ifstream in(op[1], std::ios::binary); std::stringstream ss; ss << in.rdbuf();
+    std::string d = op[2]; for (size_t i = 1; i < d.size(); i++) if (d[i] == '/') { std::string dir = d.substr(0, i); __real_mkdir(dir.c_str(), 0770); }
+    std::ofstream out(op[2], std::ios::binary | std::ios::trunc); out << ss.str(); out.close();
+    emit("\"e\":\"HostCp\",\"src\":" + jstr(op[1]) + ",\"dst\":" + jstr(op[2]) + ",\"ok\":" + (in.good() || in.eof() ? "true" : "false"));
+    return false;
+  }
+  if (o == "hostwrite" && op.size() > 2) {    // hostwrite PATH HEX
+    std::string d = op[1]; for (size_t i = 1; i < d.size(); i++) if (d[i] == '/') { std::string dir = d.substr(0, i); __real_mkdir(dir.c_str(), 0770); }
+    std::string data = unhex(op[2]);
+    std::ofstream out(op[1], std::ios::binary | std::ios::trunc); out << data; out.close();
+    return false;
+  }
+  if (o == "utime" && op.size() > 2) {
+    struct timeval tv[2] = {{atol(op[2].c_str()), 0}, {atol(op[2].c_str()), 0}};
+    int r = utimes(op[1].c_str(), tv);
+    emit("\"e\":\"Utime\",\"path\":" + jstr(op[1]) + ",\"t\":" + op[2] + ",\"ok\":" + (r == 0 ? "true" : "false"));
+    return false;
+  }
+  if (o == "stampnew" && op.size() > 2) {    // every regular file under DIR whose mtime is "real" (after 2017) gets logical time T
+    std::vector<std::string> stack{op[1]}; std::string done = "";
+    while (!stack.empty()) {
+      std::string d = stack.back(); stack.pop_back();
+      DIR *dp = __real_opendir(d.c_str()); if (!dp) continue;
+      while (struct dirent *de = readdir(dp)) {
+        std::string n = de->d_name; if (n == "." || n == "..") continue;
+        std::string pth = d + "/" + n; struct stat st; if (__real_stat(pth.c_str(), &st)) continue;
+        if (S_ISDIR(st.st_mode)) { stack.push_back(pth); continue; }
+        if (st.st_mtime > 1500000000) {
+          struct timeval tv[2] = {{atol(op[2].c_str()), 0}, {atol(op[2].c_str()), 0}}; utimes(pth.c_str(), tv);
+          done += (done.empty() ? "" : ",") + jstr(pth);
+        }
+      }
+      closedir(dp);
+    }
+    emit("\"e\":\"Stamped\",\"t\":" + op[2] + ",\"files\":[" + done + "]");
+    return false;
+  }
+  if (o == "patchbytes" && op.size() > 3) {   // patchbytes PATH OFFSET HEX: overwrite bytes, keep the mtime
+    struct stat st; int r = __real_stat(op[1].c_str(), &st);
+    std::string data = unhex(op[3]);
+    FILE *f = __real_fopen(op[1].c_str(), "r+b");
+    if (f) { fseek(f, atol(op[2].c_str()), SEEK_SET); fwrite(data.data(), 1, data.size(), f); __real_fclose(f); }
+    if (r == 0) { struct timeval tv[2] = {{st.st_mtime, 0}, {st.st_mtime, 0}}; utimes(op[1].c_str(), tv); }
+    emit("\"e\":\"Patched\",\"path\":" + jstr(op[1]) + ",\"ok\":" + (f ? "true" : "false"));
+    return false;
+  }
+  if (o == "hostcat" && op.size() > 1) {      // log the content of a host file (hex)
+    std::ifstream in(op[1], std::ios::binary); std::stringstream ss; ss << in.rdbuf(); std::string d = ss.str();
+    emit("\"e\":\"HostFile\",\"path\":" + jstr(op[1]) + ",\"exists\":" + (in.good() || in.eof() ? "true" : "false") + ",\"hex\":\"" + hex(d.data(), d.size()) + "\"");
+    return false;
+  }
   if (o == "fslog") { g_fslog = atoi(op[1].c_str()) != 0; return false; }
   if (o == "fscrash") { g_fscrash = atol(op[1].c_str()); return false; }
   if (o == "fault") { verif_fault_countdown = atol(op[1].c_str()); return false; }
